@@ -9,7 +9,7 @@ def run(ctx):
         lq.replay_mode(ctx)
     try:
         lq.standard(ctx, "C40", ("LedgerQuery_C40.cfg", "LedgerQuery_C40t.cfg"), ["Submit:ok", "Restart"], {"views", "history"},
-                    tv=({"ntraces": 3, "nsteps": 40}, {"ntraces": 10, "nsteps": 80}), extra=long_chain,
+                    tv=({"ntraces": 2, "nsteps": 40}, {"ntraces": 10, "nsteps": 80}), extra=long_chain,
                     assumptions=["queries compared: GetBlockHash, GetBlockByHeight, GetBlockByHash, GetHeaderByHash, GetHeaderByHeight, "
                                  "GetRawHeaderByHash, GetTransaction (+height), IsContainBlock/Transaction, byte equality with the committed block",
                                  "the model's header index window is 2 in the exhaustive run and the real 2000 in the validated traces"])
